@@ -123,6 +123,19 @@ impl<'a, C: Suite> Visitor<C> for V<'a> {
                     let must = *codec == "bytes" && T::EXACT_LEN || *codec == "json";
                     self.decode_and_judge::<C, T>(codec, &e, "extended", must);
                 }
+                // JSON: length changes INSIDE every hex string (one or two characters more or
+                // fewer); truncation must always be rejected, any other length must be rejected by
+                // the exact-length types, and whatever is accepted must still hold valid points
+                if *codec == "json" {
+                    if let Ok(doc) = serde_json::from_slice::<serde_json::Value>(enc) {
+                        self.ctx.require(&format!("{n}/{tn}/json/string-length"));
+                        for (kind, bytes) in json_length_variants(&doc) {
+                            let must = kind == "string-truncated" || T::EXACT_LEN;
+                            self.decode_and_judge::<C, T>("json", &bytes, kind, must);
+                            self.ctx.hit(&format!("{n}/{tn}/json/string-length"), &[&bytes]);
+                        }
+                    }
+                }
                 // point substitution
                 for (pname, kind, pbytes) in &pts {
                     let bad = match kind {
@@ -310,4 +323,70 @@ fn shares<C: Suite>(ctx: &mut Ctx, env: &Env<C>, bad_sig: &[(String, Vec<u8>)], 
         }
     }
     ctx.sample(&format!("{n}/shares/Signature::from_shares"), || json!({"bad_payload_classes": bad_sig.iter().map(|(k,_)| k.clone()).collect::<Vec<_>>() }));
+}
+
+/// every string leaf of a JSON document with 1 or 2 hex characters appended / removed
+fn json_length_variants(doc: &serde_json::Value) -> Vec<(&'static str, Vec<u8>)> {
+    fn leaves(v: &serde_json::Value, path: &mut Vec<String>, acc: &mut Vec<Vec<String>>) {
+        match v {
+            serde_json::Value::String(_) => acc.push(path.clone()),
+            serde_json::Value::Array(a) => {
+                for (i, x) in a.iter().enumerate() {
+                    if a.len() > 8 && i >= 2 {
+                        continue;
+                    }
+                    path.push(i.to_string());
+                    leaves(x, path, acc);
+                    path.pop();
+                }
+            }
+            serde_json::Value::Object(m) => {
+                for (k, x) in m {
+                    path.push(k.clone());
+                    leaves(x, path, acc);
+                    path.pop();
+                }
+            }
+            _ => {}
+        }
+    }
+    fn get_mut<'a>(v: &'a mut serde_json::Value, path: &[String]) -> Option<&'a mut serde_json::Value> {
+        let mut cur = v;
+        for p in path {
+            cur = match cur {
+                serde_json::Value::Array(a) => a.get_mut(p.parse::<usize>().ok()?)?,
+                serde_json::Value::Object(m) => m.get_mut(p)?,
+                _ => return None,
+            };
+        }
+        Some(cur)
+    }
+    let mut paths = Vec::new();
+    leaves(doc, &mut Vec::new(), &mut paths);
+    let mut out = Vec::new();
+    for path in paths {
+        let mut d0 = doc.clone();
+        let Some(serde_json::Value::String(s)) = get_mut(&mut d0, &path).cloned() else { continue };
+        // only hex payloads (scheme / curve names are not length-mutated)
+        if s.len() < 16 || !s.bytes().all(|b| b.is_ascii_hexdigit()) {
+            continue;
+        }
+        let mut variants: Vec<(&'static str, String)> = vec![
+            ("string-extended", format!("{s}0")),
+            ("string-extended", format!("{s}f")),
+            ("string-extended", format!("{s}00")),
+            ("string-extended", format!("0{s}")),
+            ("string-truncated", s[..s.len() - 1].to_string()),
+            ("string-truncated", s[..s.len() - 2].to_string()),
+            ("string-truncated", s[1..].to_string()),
+        ];
+        for (kind, t) in variants.drain(..) {
+            let mut d = doc.clone();
+            if let Some(slot) = get_mut(&mut d, &path) {
+                *slot = serde_json::Value::String(t);
+                out.push((kind, serde_json::to_vec(&d).unwrap()));
+            }
+        }
+    }
+    out
 }
